@@ -219,6 +219,77 @@ def _thread_job(job):
     return explore.run_with(prefix, body)
 
 
+def _write_thread_job(job):
+    """Writers on the threaded CLIENT (the counter's real callers): two or three threads write device values through
+    GeckoSpa._on_set_value, one of them a value its field cannot encode (the write raises; whatever number it drew is
+    spent).  Every number handed out is the successor of the one handed out before it, and no two queued commands
+    carry the same number."""
+    (plan, start), prefix = job
+    from geckolib.spa import GeckoSpa
+
+    def body(ch):
+        snap = lib.default_snapshot()
+        spa = GeckoSpa(_Desc())
+        _advance(spa, start)
+        spa.pack_type, spa.config_version, spa.log_version = 10, snap.config_version, snap.log_version
+        sched = threads.Sched(ch, ("geckolib/driver/udp_socket.py", "geckolib/spa.py"))
+        spa._lock = threads.CoopLock(sched)
+        handed = []
+        orig = spa.get_and_increment_sequence_counter
+
+        def counted(command):
+            v = orig(command)
+            handed.append((command, v))
+            return v
+
+        spa.get_and_increment_sequence_counter = counted
+
+        def mk(ops):
+            def run():
+                out = []
+                for (length, value) in ops:
+                    try:
+                        spa._on_set_value(10, length, value)
+                        out.append("queued")
+                    except Exception as e:  # noqa  (an unencodable value is refused with an exception)
+                        out.append(type(e).__name__)
+                return out
+
+            return run
+
+        res = sched.run([mk(ops) for ops in plan])
+        viol = []
+        rep = {"mode": "write-threads", "plan": [[list(o) for o in ops] for ops in plan], "start": list(start),
+               "prefix": [list(p) for p in ch.trace]}
+        key = f"C16|write-threads|plan={plan}|start={start}"
+        if sched.deadlock:
+            viol.append((key + "|deadlock", "deadlock among writers", rep))
+        else:
+            spa.get_and_increment_sequence_counter(True)
+            spa.get_and_increment_sequence_counter(False)
+            st = tuple(start)
+            why = None
+            for command, v in handed:
+                st, exp = ref_next(st, command)
+                if v != exp and why is None:
+                    why = f"handed out {[x for c, x in handed]}: {v} is not the successor ({exp}) of the number handed out before it"
+            wire = []
+            for h, dest in spa._send_handlers:
+                parts = unframe(h.send_bytes)
+                cl = classify(parts[2]) if parts else None
+                if cl:
+                    wire.append(cl[1])
+            if len(set(wire)) != len(wire) and why is None:
+                why = f"queued commands carry the numbers {wire}: one number on two different commands"
+            if any(t.error for t in sched.threads) and why is None:
+                why = f"a writer thread died: {[t.error for t in sched.threads if t.error]}"
+            if why:
+                viol.append((key, f"writers {plan} from counter state {start} (schedule {sched.schedule}, results {res}): {why}", rep))
+        return {"violations": viol, "obs": core.digest([res, handed]), "end": core.digest(sched.schedule)}
+
+    return explore.run_with(prefix, body)
+
+
 def ref_gap_ok(a, b, command):
     """within one thread values must move forward in the cycle (no repeats)."""
     return a != b
@@ -624,6 +695,22 @@ def run(ctx):
                 f"{len(st['end'])} distinct schedules, {len(st['obs'])} distinct outcomes")
         if len(st["end"]) < 2 and not st["stopped_on_violation"]:
             raise core.HarnessError("thread exploration produced a single schedule - vacuous")
+    # writers on the threaded client, one value unencodable
+    BAD, OK1, OK2 = (2, 70000), (1, 3), (2, 300)
+    wplans = [((BAD,), (OK1, OK2)), ((OK1, BAD), (OK2,)), ((BAD, OK1), (BAD, OK2)), ((OK1,), (OK2,))]
+    if not ctx.quick:
+        wplans += [((BAD,), (OK1,), (OK2,)), ((BAD, BAD), (OK1, OK2))]
+    wtotal = 0
+    for plan in wplans:
+        for start in ((0, 191), (0, 254)):
+            st = explore.explore(ctx, _write_thread_job, (plan, start), bound - 1, label=f"writers{plan}@{start}")
+            wtotal += st["executions"]
+            explore.fold_stats(ctx, st, prefix="threads_")
+            if len(st["end"]) < 2 and not st["stopped_on_violation"]:
+                raise core.HarnessError("writer exploration produced a single schedule - vacuous")
+    ctx.set("writer_thread_schedules", wtotal)
+    ctx.set("writer_thread_preemption_bound", bound - 1)
+    total += wtotal
     ctx.set("thread_schedules", total)
     ctx.set("thread_preemption_bound", bound)
     ctx.sample({"threads": "2 threads x 2 calls, kinds (False,False), start (0,191)",
@@ -654,6 +741,10 @@ def replay(ctx, data):
     if mode in ("counter", "counter-circuit"):
         seen, tr, viol = _bfs(data["impl"])
         ctx.merge_violations(viol)
+    elif mode == "write-threads":
+        plan = tuple(tuple(tuple(o) for o in ops) for ops in data["plan"])
+        res = _write_thread_job(((plan, tuple(data["start"])), [tuple(p) for p in data["prefix"]]))
+        ctx.merge_violations(res["violations"])
     elif mode == "threads":
         cfg = (data["nthreads"], data["ncalls"], tuple(data["kinds"]), tuple(data["start"]), data["opcodes"])
         res = _thread_job((cfg, [tuple(p) for p in data["prefix"]]))
